@@ -853,6 +853,21 @@ def run(index, rep, tier):
                 if not cis or len(cis) != len(types):
                     continue        # a built-in or unresolved exception type: nothing to compare with
                 have = set.intersection(*[carried(c) for c in cis]) | BUILTIN_EXC_ATTRS | attached
+                # `e.args[i]` presupposes that the constructor chain hands arguments to Exception.__init__
+                for sub in ast.walk(h):
+                    if isinstance(sub, ast.Subscript) and isinstance(sub.value, ast.Attribute) and sub.value.attr == "args" and isinstance(sub.value.value, ast.Name) and sub.value.value.id == h.name:
+                        nread += 1
+                        passes = False
+                        for ci_ in cis:
+                            for k_ in index.mro(ci_):
+                                init = k_.methods.get("__init__")
+                                if init is None:
+                                    continue
+                                for c_ in calls_in(init.node):
+                                    if norm(c_.func).endswith("__init__") and (len([a for a in c_.args if norm(a) != "self"]) > 0):
+                                        passes = True
+                        rep.check(passes, "R20.8", f.qualname, "handler indexes %s.args, which %s leaves empty" % (h.name, "/".join(c.name for c in cis)), fn_where(f, sub), "%s.args is populated by the constructor chain" % h.name,
+                                  "%s catches %s and reads `%s`, but no constructor in the hierarchy passes anything to Exception.__init__, so `args` is the empty tuple: the handler itself dies with IndexError instead of raising the defined parse error" % (f.qualname, "/".join(c.name for c in cis), norm(sub)))
                 for a in ast.walk(h):
                     if isinstance(a, ast.Attribute) and isinstance(a.ctx, ast.Load) and isinstance(a.value, ast.Name) and a.value.id == h.name:
                         nread += 1
@@ -860,6 +875,32 @@ def run(index, rep, tier):
                                   "%s: `%s.%s` is set by %s" % (f.name, h.name, a.attr, "/".join(c.name for c in cis)),
                                   "%s catches %s and reads `%s.%s`, but no class in the hierarchy of %s assigns `%s`: on the malformed input that reaches this handler the reader dies with AttributeError from inside the library instead of raising its defined parse error" % (f.qualname, "/".join(c.name for c in cis), h.name, a.attr, "/".join(c.name for c in cis), a.attr))
         rep.floor("R20.8", "attribute reads on caught repository exceptions in the readers", 3, nread)
+
+    # ---- R20.9
+    with rep.section("R20.9"):
+        rep.rule("R20.9", "each tokenizer owns its character classes: the delimiter / quote / comment sets that set_capture_eol and set_hyphens_as_captured_delimiters change in place are created afresh for every tokenizer, never taken from class- or module-level objects")
+        nt = index.function(DIO + "nexusprocessing.NexusTokenizer.__init__")
+        tk = index.klass(DIO + "tokenizer.Tokenizer")
+        mutated = set()
+        for k_ in (tk, index.klass(DIO + "nexusprocessing.NexusTokenizer")):
+            for m in k_.methods.values():
+                for w in writes_in(m.node):
+                    if w.kind == "mutcall" and w.base is not None and norm(w.base) == "self":
+                        mutated.add(w.attr)
+        init = tk.methods["__init__"]
+        field_of_param = {norm(a.value): a.targets[0].attr for a in walk_no_nested(init.node) if isinstance(a, ast.Assign) and is_self_attr(a.targets[0]) and isinstance(a.value, ast.Name)}
+        sup = [c for c in calls_in(nt.node) if norm(c.func).endswith("Tokenizer.__init__")]
+        if len(sup) != 1 or not mutated:
+            raise AnalysisError("R20.9: NexusTokenizer.__init__ / mutated character classes not recognised")
+        nsets = 0
+        for k in sup[0].keywords:
+            if k.arg and field_of_param.get(k.arg) in mutated:
+                nsets += 1
+                v = k.value
+                fresh = isinstance(v, (ast.Set, ast.SetComp, ast.List)) or (isinstance(v, ast.Call) and isinstance(v.func, ast.Name) and v.func.id in ("set", "list", "frozenset") ) or (isinstance(v, ast.Call) and norm(v.func) in ("copy.copy", "copy.deepcopy"))
+                rep.check(fresh, "R20.9", nt.qualname, "%s taken from a shared object: %s" % (k.arg, norm(v)[:40]), fn_where(nt, v), "NexusTokenizer gives each tokenizer its own %s" % k.arg,
+                          "NexusTokenizer.__init__ passes `%s` as %s: the tokenizer changes that set in place (set_capture_eol / set_hyphens_as_captured_delimiters), so with a shared object every tokenizer in the process sees the change; after one read that fails inside a matrix row or a CHARSET range every later document is tokenized with `-` or end-of-line as tokens and valid input is rejected" % (norm(v)[:50], k.arg))
+        rep.floor("R20.9", "character classes mutated in place", 2, nsets)
 
     # ---- R20.7
     with rep.section("R20.7"):
@@ -888,6 +929,20 @@ def run(index, rep, tier):
                               "%s: `%s` measures the row like the other %d comparisons" % (f7.name, norm(n)[:60], len(sizes[major]) - (1 if sz == major else 0)),
                               "%s compares the declared NCHAR with `%s` in `%s`, while its loop condition and the other guard(s) compare it with `%s`: the guard no longer counts the cells already stored for the taxon, so on a later interleave page a row grows past NCHAR and the reader returns a matrix wider than its own header declares instead of raising" % (f7.qualname, sz, norm(n)[:70], major))
         rep.floor("R20.7", "cell readers with NCHAR comparisons", 2, ngroups)
+        # the too-many-characters guard fires when the row is FULL (==, >=), i.e. before one more cell is appended
+        for q in (DIO + "nexusreader.NexusReader._read_character_states", DIO + "nexusreader.NexusReader._read_continuous_character_values"):
+            f7 = index.function(q)
+            c7 = cfg_of(f7)
+            for t in c7.nodes:
+                if t.kind == "test" and isinstance(t.ast, ast.Compare) and len(t.ast.ops) == 1 and "self._file_specified_nchar" in (norm(t.ast.left), norm(t.ast.comparators[0])) and t.stmt is not None and isinstance(t.stmt, ast.If):
+                    r_t = raises_in_branch(c7, t, "t")
+                    if r_t is None:
+                        continue
+                    op = type(t.ast.ops[0]).__name__
+                    if norm(t.ast.left) == "self._file_specified_nchar":
+                        op = {"Gt": "Lt", "Lt": "Gt", "GtE": "LtE", "LtE": "GtE"}.get(op, op)
+                    rep.check(op in ("Eq", "GtE"), "R20.7", f7.qualname, "too-many guard `%s` lets a full row grow" % norm(t.ast)[:60], fn_where(f7, t.stmt), "%s: the guard `%s` refuses as soon as the row is full" % (f7.name, norm(t.ast)[:50]),
+                              "%s raises the too-many-characters error only under `%s`: the test runs BEFORE the next cell is appended, so it must fire when the row already holds NCHAR cells (== or >=); with `>` a row with exactly one surplus cell is accepted and the matrix returned is wider than its header declares" % (f7.qualname, norm(t.ast)[:70]))
 
     # ---- R20.6
     with rep.section("R20.6"):
